@@ -490,7 +490,7 @@ func outputs(ws workspace, v variation) (out map[string]string) {
 }
 
 func partB(run *hx.Run, r *hx.Rand) {
-	n := run.N(25, 400)
+	n := run.N(25, 240) // thorough re-budgeted (was 400) when the filter and overlap families were added
 	for i := 0; i < n; i++ {
 		cr := r.Fork(uint64(i))
 		ws := genWorkspace(cr, i)
@@ -713,6 +713,14 @@ func buildBuf(run *hx.Run, tmpRoot string) (string, bool) {
 	return bufBin, true
 }
 
+// clip keeps the head of a (possibly binary) output for a failure report.
+func clipOut(s string, n int) string {
+	if len(s) > n {
+		s = s[:n] + fmt.Sprintf("... (%d bytes)", len(s))
+	}
+	return strconv.Quote(s)
+}
+
 func partC(run *hx.Run, r *hx.Rand, tmpRoot string, bufBin string) {
 	n := run.N(6, 60)
 	for i := 0; i < n; i++ {
@@ -791,7 +799,7 @@ func partC(run *hx.Run, r *hx.Rand, tmpRoot string, bufBin string) {
 			} else if !bytes.Equal(ref, j.res) {
 				run.Fail(hx.OracleFailure{Class: "binary-nondeterministic-" + args[0],
 					What:   fmt.Sprintf("`buf %s` output differs between default and GOMAXPROCS=%s (args %v)", strings.Join(args, " "), gmp, j.a),
-					Input:  map[string]any{"workspace": describe(ws), "args": j.a},
+					Input:  map[string]any{"workspace": describe(ws), "args": j.a, "reference_output": clipOut(string(ref), 1500), "this_output": clipOut(string(j.res), 1500)},
 					Replay: fmt.Sprintf("build/c02 --out /tmp/c02-replay --seed %d --tier %s", run.Seed, run.Tier)})
 			}
 		}
@@ -960,6 +968,34 @@ func main() {
 		secs[name] = fmt.Sprintf("%.1f", time.Since(t0).Seconds())
 		run.Set("seconds_per_part", secs)
 	}
+	if len(run.Args) > 0 && run.Args[0] == "await" {
+		// part A-wait alone (one scenario alone: await <k>)
+		k := -1
+		if len(run.Args) > 1 {
+			k, _ = strconv.Atoi(run.Args[1])
+		}
+		partAWait(run, r.Fork(7), k)
+		run.Finish()
+		return
+	}
+	if run.Only >= overlapOnlyBase {
+		// one member of the overlap family alone
+		partBOverlap(run, r.Fork(9))
+		if bufBin, ok := buildBuf(run, tmpRoot); ok {
+			partEOverlap(run, r.Fork(9), tmpRoot, bufBin)
+		}
+		run.Finish()
+		return
+	}
+	if run.Only >= filterOnlyBase {
+		// one member of the filter family alone
+		partBFilter(run, r.Fork(10))
+		if bufBin, ok := buildBuf(run, tmpRoot); ok {
+			partEFilter(run, r.Fork(10), tmpRoot, bufBin)
+		}
+		run.Finish()
+		return
+	}
 	if run.Only >= manyOnlyBase {
 		// one member of the many-problem family alone
 		partBMany(run, r.Fork(6))
@@ -970,9 +1006,12 @@ func main() {
 		return
 	}
 	timed("A", func() { partA(run, r.Fork(1)) })
+	timed("A-wait", func() { partAWait(run, r.Fork(7), -1) })
 	if run.Only < 0 {
 		timed("B", func() { partB(run, r.Fork(2)) })
 		timed("B-many", func() { partBMany(run, r.Fork(6)) })
+		timed("B-filter", func() { partBFilter(run, r.Fork(10)) })
+		timed("B-overlap", func() { partBOverlap(run, r.Fork(9)) })
 		timed("D", func() { partD(run, r.Fork(4)) })
 		var bufBin string
 		var ok bool
@@ -981,6 +1020,8 @@ func main() {
 			timed("C", func() { partC(run, r.Fork(3), tmpRoot, bufBin) })
 			timed("E", func() { partE(run, r.Fork(5), tmpRoot, bufBin) })
 			timed("E-many", func() { partEMany(run, r.Fork(6), tmpRoot, bufBin) })
+			timed("E-filter", func() { partEFilter(run, r.Fork(10), tmpRoot, bufBin) })
+			timed("E-overlap", func() { partEOverlap(run, r.Fork(9), tmpRoot, bufBin) })
 			timed("E-cycles", func() { partECycles(run, r.Fork(8), tmpRoot, bufBin) })
 		}
 	} else {
